@@ -107,4 +107,22 @@ def nsiBetweennessDef (n : Nat) (a : Adj) (w : Nat → Rat) (d : DistFn) (isSrc 
     (targets : List Nat) : List Rat :=
   (List.range n).map fun v => betwTimesWDef n a w d isSrc targets v / w v
 
+/-- the published double sum written with path enumerations only (round 5):
+`b_v = (1/w_v) Σ_{t ∈ targets, t ≠ v} w_t Σ_{s source, s ≠ v, reachable from t}
+   w_s · (Σ_{shortest t–s paths through v} Π w) / (Σ_{shortest t–s paths} Π w)` -/
+def nsiBetweennessEnum (n : Nat) (a : Adj) (w : Nat → Rat) (d : DistFn) (isSrc : List Bool)
+    (targets : List Nat) (v : Nat) : Rat :=
+  ((targets.map fun t => if v = t then 0 else
+      w t * sumToQ n fun s => if s != v && (d t s).isSome then
+        excess w isSrc s * (sigmaThruPaths n a w d t v s / sigmaPaths n a w d t s) else 0).sum) / w v
+
+/-- the published definition of interregional betweenness by counting:
+`Σ_{t ∈ T, t ≠ v} Σ_{s ∈ S, s ≠ v} #(shortest t–s paths through v) / #(shortest t–s paths)`
+(pairs without a connecting path contribute nothing; a target listed twice counts twice) -/
+def interregionalCount (n : Nat) (a : Adj) (d : DistFn) (S T : List Nat) (v : Nat) : Rat :=
+  (T.map fun t => if v = t then 0 else
+    sumToQ n fun s => if s != v && S.contains s && (d t s).isSome then
+      ((((shortestPaths n a d t s).filter fun p => p.contains v).length : Nat) : Rat)
+        / (((shortestPaths n a d t s).length : Nat) : Rat) else 0).sum
+
 end Pyunicorn.NetBetw
